@@ -149,6 +149,11 @@ def corner_schemas():
         # zero-length array members inside a composite, inline and through a <ref> (appended: earlier
         # message indices, and with them the committed regression plans, stay as they were)
         M("m4", [F("frame", "zcomp"), F("after", "uint16")], [G("group", "groupSizeEncoding", [F("frame", "zcomp")])], [D("data", "varDataEncoding")]),
+        # views (composite, array) behind a gap left by an explicit offset, as the last thing in the buffer:
+        # last field of a flat message, and last field of the last entry of the last group
+        M("m5", [F("a", "uint8"), F("c", "compA", offset="+3")], [], []),
+        M("m6", [F("a", "uint8"), F("s", "str16", offset="+5"), F("z", "zero0", offset="+2")], [], []),
+        M("m7", [F("k", "uint16")], [G("g", "groupSizeEncoding", [F("a", "uint8"), F("c", "compA", offset="+2")]), G("h", "groupSizeEncoding", [F("s", "str16", offset="+7")])], []),
     ]))
     # 2. big-endian; reordered header with a gap, ref-typed uint64 blockLength, counters;
     #    dimensions uint8/uint32 (with offset) and uint64/uint64; data lengths uint8 and uint64
@@ -212,7 +217,11 @@ def corner_schemas():
                             [D("q", "v16")]),
                           M("t1", [], [G("z", "d88", [], [], [])], [D("w", "v8")]),
                           M("t2", [], [G("outer", "d88", [], [G("inner", "d16_8", [F("i", "int16")], [], [D("dd", "v8")])], [])], []),
+                          # counters whose *schema* range is narrower than what the wire carries: numInGroup and length
+                          # types with a declared maxValue of 2 / 3 (the geometry comes from the buffer, not from the schema)
+                          M("t3", [F("k", "uint8")], [G("lim", "dmax", [F("x", "uint16")]), G("limn", "dmax", [F("y", "uint8")], [], [D("e", "v8")])], [D("cap", "vmax")]),
                       ]))
+    out[-1]["types"] += [C("dmax", [T("blockLength", "uint8"), dict(T("numInGroup", "uint8"), max_value=2)]), C("vmax", [dict(T("length", "uint8"), max_value=3), T("varData", "uint8", length=0)])]
     # 4. wide counters: uint32 numInGroup with uint16 blockLength, uint64 data length, custom block lengths
     out.append(schema("wide", "bigEndian", header("hw", bl=4, tid=4, sid=2, ver=2),
                       [dimension("d16_32", 2, 4), dimension("d32_16", 4, 2), vardata("v64", 8, "char"), vardata("v32", 4),
